@@ -105,6 +105,8 @@ NAMES_SOURCE = (
     "Link\tTest/New_Town\tTest/Newtown\n"
     "Link\tTest/Other\tTest/Alias\n"
     "Link\tTest/New-Town\tTest/NewTownAlias\n"
+    "Link\tTest/Other\tTest/Twice\n"
+    "Link\tNOSLASH\tTest/Twice\n"
     "Link\tTest/A-B\tTest/AB-Link\n")
 
 
@@ -122,6 +124,35 @@ def run(ctx):
         check_database(ctx, db, r["zones"][db], r["syms"][db], r["symids"][db], label, baseline, nt)
         if r["meta"][db]["registrySize"] != len(r["zones"][db]):
             ctx.violation("registry-size:" + label, {}, "registry size constant differs from the number of entries")
+    # the other documented build configuration (ACE_TIME_USE_PROGMEM 0 in common/compat.h, which selects the second set of broker
+    # accessors): the decoded databases must be identical to the default build
+    import shutil
+    import subprocess
+    alt = os.path.join(vt.build_dir("C11"), "altrepo")
+    shutil.copytree(os.path.join(vt.REPO, "src"), os.path.join(alt, "src"))
+    cp = os.path.join(alt, "src", "ace_time", "common", "compat.h")
+    txt = open(cp).read()
+    if "#define ACE_TIME_USE_PROGMEM 1" not in txt:
+        raise vt.HarnessError("compat.h no longer defines ACE_TIME_USE_PROGMEM 1")
+    open(cp, "w").write(txt.replace("#define ACE_TIME_USE_PROGMEM 1", "#define ACE_TIME_USE_PROGMEM 0"))
+    sym = os.path.join(vt.build_dir("C11"), "gen_symbols_alt.cpp")
+    dblib.gen_symbols_cpp([("x", "zonedbx", "extended", os.path.join(alt, "src/ace_time/zonedbx/zone_infos.h")),
+                           ("b", "zonedb", "basic", os.path.join(alt, "src/ace_time/zonedb/zone_infos.h"))], sym)
+    exe_alt = vt.build("C11", "dumpdb_noprogmem", ["dumpdb.cpp"], extra=["-DVDB_SYMBOLS=1"], extra_sources=[sym], opt="-O1", repo=alt)
+    rc, out, err = vt.run_exe(exe_alt, [], timeout=600)
+    if rc != 0:
+        ctx.violation("noprogmem-dump-crash", {}, "decoding the shipped databases in the ACE_TIME_USE_PROGMEM=0 build crashed: %s" % (err or "")[-400:])
+    else:
+        ra = dblib.parse_dump(out)
+        strip = lambda z: {k: v for k, v in z.items() if k not in ("addr", "target_addr")}
+        for db, label in (("x", "zonedbx"), ("b", "zonedb")):
+            check_database(ctx, db, ra["zones"][db], ra["syms"][db], ra["symids"][db], label + "-noprogmem", baseline, nt)
+            za, zb = [strip(z) for z in ra["zones"][db]], [strip(z) for z in r["zones"][db]]
+            ctx.evaluations += len(za)
+            if za != zb:
+                bad = next((a_["name"] for a_, b_ in zip(za, zb) if a_ != b_), "?")
+                ctx.violation("noprogmem-differs:" + label, {"db": label, "first_zone": bad},
+                              "%s decodes differently with ACE_TIME_USE_PROGMEM=0 (first differing zone %s)" % (label, bad))
     # same name -> same id across databases
     ids = {}
     for db in ("x", "b"):
